@@ -28,7 +28,7 @@ META = {
     "Witness theorems for what the tree does not satisfy: sets of sets are ordered by proper subset, a partial order "
     "(C08_witness_partial_order, D6); a member of a reference cycle hashed after another member gets another hash "
     "(C08_witness_cycle, D61).  The tag literals come from pydra/utils/hash.py on every run "
-    "(Gen/HashLits.lean; heads_ok / sources_ok are closed by decide).  The model is tied to the code by hashing generated "
+    "(Gen/HashLits.lean; heads_prefix_free / len_seps_ok / words_ok / sources_ok are closed by decide).  The model is tied to the code by hashing generated "
     "values and near-miss pairs with the real hash_function and with the model instantiated with a Lean BLAKE2b "
     "(itself compared with hashlib on every run).",
     "note": "Trusted: Lean kernel; hand-written model (Hash/Model.lean) of the serializers; harness conversion of Python "
@@ -164,8 +164,8 @@ def run_pairs(ctx, pairs: list[dict], moddir: Path):
         rows.append((p, ha, hb, again, rebuilt, ca, cb))
         for c in (ca, cb):
             if c is not None:
-                q.append({"op": "hash", "v": c})
-    ans = ctx.driver("Hash", q)
+                q.append({"op": "hash", "v": c, "alone": True})
+    ans = H.model(ctx, q)
     it = iter(ans) if ans is not None else None
     for p, ha, hb, again, rebuilt, ca, cb in rows:
         ma = H.model_tag(next(it)) if (it is not None and ca is not None) else None
@@ -221,7 +221,7 @@ def run_ctx(ctx, cases: list[dict], moddir: Path):
         if cs is not None and cv is not None:
             q.append({"op": "hash_ctx", "vs": cs})
             q.append({"op": "hash", "v": cv})
-    ans = ctx.driver("Hash", q)
+    ans = H.model(ctx, q)
     it = iter(ans) if ans is not None else None
     for c, seq, alone, cs, cv in rows:
         model = None
@@ -301,8 +301,7 @@ def in_process_d6_witness():
 def correspondence(ctx):
     core.assert_repo_loaded()
     moddir = ctx.scratch / "mods"
-    if not H.validate_blake2b(ctx):
-        return
+    H.validate_blake2b(ctx)
     known = {f["id"] for f in ctx.known()}
     # corpus first ---------------------------------------------------------------------------------------------
     rows = [json.loads(l) for l in CORPUS.read_text().splitlines() if l.strip()]
